@@ -29,7 +29,7 @@ type c17Case struct {
 	FlushMaxNum  int      `json:"flushmaxnum"`
 	FlushMaxWait int      `json:"flushmaxwait_ms"`
 	Blocking     bool     `json:"blocking"`
-	Faults       []string `json:"faults"` // per POST to /metrics, in arrival order: ok | 400 | 500 | hang | reset ; exhausted = ok
+	Faults       []string `json:"faults"` // per POST to /metrics, in arrival order: ok | 400 | 500 | hang | reset | 503trunc | 200trunc ; exhausted = ok
 	Lines        []string `json:"lines"`  // plain ASCII "name value ts"
 	PauseEvery   int      `json:"pause_every"`
 	Shutdown     bool     `json:"shutdown"` // call Shutdown at the end and report whether it returned
@@ -93,6 +93,18 @@ func runC17(raw json.RawMessage) (interface{}, error) {
 			w.Write([]byte("boom"))
 		case "hang":
 			time.Sleep(400 * time.Millisecond) // longer than the client timeout
+		case "503trunc", "200trunc":
+			// a status line and headers announcing a body that never arrives in full: the connection is closed after 20 bytes
+			if hj, ok := w.(http.Hijacker); ok {
+				conn, buf, _ := hj.Hijack()
+				st := "503 Service Unavailable"
+				if out == "200trunc" {
+					st = "200 OK"
+				}
+				buf.WriteString("HTTP/1.1 " + st + "\r\nContent-Type: text/plain\r\nContent-Length: 4096\r\n\r\n01234567890123456789")
+				buf.Flush()
+				conn.Close()
+			}
 		case "reset":
 			if hj, ok := w.(http.Hijacker); ok {
 				conn, _, _ := hj.Hijack()
@@ -150,7 +162,7 @@ func runC17(raw json.RawMessage) (interface{}, error) {
 			defer mu.Unlock()
 			n := 0
 			for _, p := range posts {
-				if p.Outcome == "ok" {
+				if p.Outcome == "ok" || p.Outcome == "200trunc" {
 					n += len(p.Points)
 				}
 			}
